@@ -54,8 +54,11 @@ def cfg_text(cfg, design):
                   "INVARIANTS TypeOK LenOK CountersOK StructOK OrderOK FateOK ReplayOK",
                   "PROPERTIES FateForward ReadStepOK AddStepOK"]
     else:
+        # the bookkeeping variables fate/lastH are outside this view: the obligations over them are then checked along the
+        # BFS-first path to every view state (the exhaustive check over all paths is the design-level run)
         lines += ["VIEW view", "ACTION_CONSTRAINT DumpAC",
-                  "INVARIANTS TypeOK LenOK CountersOK StructOK OrderOK ReplayOK"]
+                  "INVARIANTS TypeOK LenOK CountersOK StructOK OrderOK FateOK ReplayOK",
+                  "PROPERTIES FateForward ReadStepOK AddStepOK"]
     return "\n".join(lines) + "\n"
 
 
@@ -105,7 +108,7 @@ def run_pack(ctx, cfg, workers=8, timeout=1500):
     # every emitted transition must have been consumed (the initial state is the one generated state that is no transition)
     if summary["n"] != res.generated - 1:
         raise vlib.MachineryError("replayer consumed %d transitions, TLC generated %d" % (summary["n"], res.generated - 1))
-    if summary.get("timing_unconfirmed", 0) > 5:
+    if summary.get("timing_unconfirmed", 0) > 20:
         raise vlib.MachineryError("%d watchdog firings were not confirmed by the slow re-execution: machine too loaded" %
                                   summary["timing_unconfirmed"])
     ops = {k[3:]: v for k, v in summary["counters"].items() if k.startswith("op:")}
